@@ -4,6 +4,7 @@ import HpxVerif.Lemmas.EdgeInternal3
 import HpxVerif.Lemmas.EdgeExternal4
 import HpxVerif.Gen.Consts
 import HpxVerif.Lemmas.NoBmi
+import HpxVerif.Lemmas.SizeGen
 
 set_option autoImplicit false   -- an unknown identifier in a statement is an error, never a new variable
 
@@ -316,5 +317,18 @@ theorem internal_edge_top_spec_any_build (cfg : Cfg) (d hash dd : Nat) (h1 : 1 â
 example := internal_edge_set_any_build { debug := true, bmi := true } 7 2 (by omega) (by omega) (by norm_num)
 example := internal_edge_top_spec_any_build { debug := true, bmi := true } 1 7 2 (by omega) (by omega) (by norm_num)
 end AnyBuild
+
+
+/-! ## constants from the source
+
+`Gen/SizeTables.lean` is produced on every run by interpreting the source text of `x_mask`, `y_mask`, `xy_mask`,
+`nside_unsafe`, `nside_square_unsafe`, `n_hash_unsafe` and of `Layer::new` (overflowing shifts / subtractions = panic). -/
+
+/-- the model's `x_mask`, `y_mask`, `xy_mask` are the source's, for every `delta_depth` 0..32 and any configuration
+    (`delta_depth = 0`: the empty mask, since the repair of finding F25) -/
+theorem masks_from_source (cfg : Cfg) :
+    (List.range 33).map (Topo.xMaskFn cfg) = Gen.Size.xMask âˆ§
+    (List.range 33).map (Topo.yMaskFn cfg) = Gen.Size.yMask âˆ§
+    (List.range 33).map (Topo.xyMaskFn cfg) = Gen.Size.xyMask := Hpx.SizeGen.masks_from_source cfg
 
 end Hpx.C14
